@@ -385,6 +385,13 @@ impl Lut {
         fill_hex(ret.num_vars(), ret.table.as_mut(), s)?;
         Ok(ret)
     }
+
+    /// Apply one step of the `all_functions` successor to this table; returns false on wrap-around
+    #[cfg(feature = "verif-hooks")]
+    #[doc(hidden)]
+    pub fn verif_next_inplace(&mut self) -> bool {
+        next_inplace(self.num_vars, self.table.as_mut())
+    }
 }
 
 #[doc(hidden)]
